@@ -540,6 +540,15 @@ func (r *resolver) resolveRef(rs *Resolved, s *Schema, ref string) (_ *Schema, d
 		// TODO: support that case.
 		if lrs := r.loaded[fraglessRefURI.String()]; lrs != nil {
 			referencedSchema = lrs.root
+			// The document may have been loaded while resolving a different
+			// document (a reference cycle or a diamond), in which case its
+			// resolvedInfos were merged into that document's Resolved, not rs.
+			// Copy them here too, so the anchor lookup below can find them.
+			for s, i := range lrs.resolvedInfos {
+				if rs.resolvedInfos[s] == nil {
+					rs.resolvedInfos[s] = i
+				}
+			}
 		} else {
 			// Try to load the schema.
 			ls, err := r.opts.Loader(fraglessRefURI)
